@@ -609,16 +609,32 @@ class FilterContextPath(Path):
         path_repr = str(self.path)
         return "_" + path_repr[1:]
 
+    def _context_node(self, context: FilterContext) -> JSONPathMatch:
+        # Keep the root value and filter context of the enclosing query, so
+        # nested filters see the same `$` and `_`.
+        return context.env.match_class(
+            filter_context=context.extra_context,
+            obj=context.extra_context,
+            parent=None,
+            path=context.env.root_token,
+            parts=(),
+            root=context.root,
+        )
+
     def evaluate(self, context: FilterContext) -> object:
-        return NodeList(self.path.finditer(context.extra_context))
+        matches: Iterable[JSONPathMatch] = [self._context_node(context)]
+        for selector in self.path.selectors:
+            matches = selector.resolve(matches)
+        return NodeList(matches)
 
     async def evaluate_async(self, context: FilterContext) -> object:
-        return NodeList(
-            [
-                match
-                async for match in await self.path.finditer_async(context.extra_context)
-            ]
-        )
+        async def context_node() -> AsyncIterable[JSONPathMatch]:
+            yield self._context_node(context)
+
+        matches: AsyncIterable[JSONPathMatch] = context_node()
+        for selector in self.path.selectors:
+            matches = selector.resolve_async(matches)
+        return NodeList([match async for match in matches])
 
 
 class FunctionExtension(FilterExpression):
